@@ -269,9 +269,46 @@ def work(tasks, idx):
                                                "match": {"op": "parse_cred_json", "kind": kind, "relation": "undecodable-text"}})
             if len(res.samples) < 4:
                 res.samples.append({"kind": kind, "value": text[:300], "shape": shape, "outcome": corr.kind(code_d)})
+        if n < 0:
+            _large(kind, res)
     if drv:
         drv.close()
     return res
+
+
+def _large(kind, res):
+    """well-formed credentials that are large as a whole (hundreds of KiB to a few MiB of text: a long attestation chain, a
+    large ignored extension result): the list-based model is not asked; the property's own relations are checked on the real
+    code - parsed, text form and dict form equal, decoded members exact"""
+    import base64, copy, hashlib
+    base = systematic(kind)[0][0]
+    member = "attestationObject" if kind == "reg" else "authenticatorData"
+    for nbytes in (300_000, 786_500, 1_600_000):
+        blob = hashlib.shake_256(b"c13-large-%d" % nbytes).digest(nbytes)
+        for where in ("member", "ignored-extension-result"):
+            d = copy.deepcopy(base)
+            if where == "member":
+                d["response"][member] = core.b64url(blob)
+            else:
+                d["clientExtensionResults"] = {"largeBlob": {"blob": core.b64url(blob)}, "credProps": {"rk": True}}
+            text = json.dumps(d)
+            how = {"kind": kind, "large": where, "bytes": nbytes, "text_chars": len(text),
+                   "reproduce": f"systematic('{kind}')[0][0] with shake_256(b'c13-large-{nbytes}').digest({nbytes}) as {where}"}
+            code_d, code_t = code_parse(kind, d), code_parse(kind, text)
+            res.evaluations += 2
+            res.count(f"{kind}:large:" + corr.kind(code_t))
+            res.nontrivial.add((kind, "large", where, nbytes))
+            if code_d["k"] != "accept" or code_t["k"] != "accept":
+                res.violations.append({"why": f"well-formed credential of {len(text)} characters ({where}) was not parsed: dict {str(code_d)[:120]} / text {str(code_t)[:120]}",
+                                       "value": how, "match": {"op": "parse_cred_json", "kind": kind, "relation": "well-formed-refused"}})
+                continue
+            if code_d["record"] != code_t["record"]:
+                res.violations.append({"why": "text and dict form give different results (large credential)", "value": how,
+                                       "match": {"op": "parse_cred_json", "kind": kind, "relation": "text-vs-dict"}})
+            dec = lambda t: base64.urlsafe_b64decode(t + "===").hex()
+            if not _fidelity(kind, code_t["record"], d, dec):
+                res.violations.append({"why": "accepted large credential does not equal the decoded members", "value": how,
+                                       "match": {"op": "parse_cred_json", "kind": kind, "relation": "fidelity"}})
 
 
 def run(ctx, res):
